@@ -654,6 +654,11 @@ func (s *storage) ReceiveBlob(ctx context.Context, br blob.Ref, source io.Reader
 		if err == nil && fi.Size() >= m.offset+int64(m.size) {
 			return sbr, nil
 		}
+	} else if !errors.Is(err, os.ErrNotExist) {
+		// Failing to consult the index is not the same as the blob being
+		// absent: appending now could store a second copy that a later
+		// removal would not erase from the packs.
+		return sbr, err
 	}
 
 	err = s.append(sbr, &b)
